@@ -308,6 +308,18 @@ func addTwinsAndShadows(rt *rapid.T, es []gitfmt.IndexEntry) []gitfmt.IndexEntry
 	return out
 }
 
+func dedupeSorted(es []gitfmt.IndexEntry) []gitfmt.IndexEntry {
+	sort.Slice(es, func(i, j int) bool { return es[i].Path < es[j].Path })
+	out := es[:0]
+	for i, e := range es {
+		if i == 0 || e.Path != es[i-1].Path {
+			// a file and a directory of the same name cannot both be given to the tree writer in this crafted form
+			out = append(out, e)
+		}
+	}
+	return out
+}
+
 func genID(rt *rapid.T) string {
 	id := rapid.SliceOfN(rapid.Byte(), 20, 20).Draw(rt, "id")
 	if rapid.IntRange(0, 99).Draw(rt, "plant") < 45 {
@@ -328,6 +340,15 @@ func TestC05(t *testing.T) {
 			c.Entries = append(c.Entries, gitfmt.IndexEntry{ID: genID(rt), Path: p})
 		}
 		c.Entries = addTwinsAndShadows(rt, c.Entries)
+		if rapid.IntRange(0, 99).Draw(rt, "manyEntries") < 4 {
+			// a directory with hundreds of entries (counts beyond one byte, a tree object of several KiB)
+			n := []int{255, 256, 257, 300, 600}[rapid.IntRange(0, 4).Draw(rt, "count")]
+			dir := []string{"", "many/", "d/many-x/"}[rapid.IntRange(0, 2).Draw(rt, "manyDir")]
+			for i := 0; i < n; i++ {
+				c.Entries = append(c.Entries, gitfmt.IndexEntry{ID: genID(rt), Path: fmt.Sprintf("%sf%04d", dir, i)})
+			}
+			c.Entries = dedupeSorted(c.Entries)
+		}
 		c.Empty = rapid.IntRange(0, 9).Draw(rt, "alsoEmpty") == 0
 		stats.Eval()
 		nested, space, hostileID := false, false, false
